@@ -37,9 +37,10 @@ CLAIMS = {
  "C04": dict(cat="proof", tech="Lean 4 invariant proof over an abstract float order (bit-equality vs numeric order) + exact differential replay",
    text="Theorems for Highest and Lowest over every stream, length and position, for any type of bit patterns whose bit-equality is "
         "finer than numeric equality (signed zeros, ties): the output is an element of the last n values and numerically extremal, so "
-        "the bit-equality rescan trigger is sound. All selection methods (incl. delta, arg-extrema, SMM, median in MedianAbsDev) are "
+        "the bit-equality rescan trigger is sound; HighestIndex / LowestIndex return the age of the NEWEST extremal element (an element "
+        "numerically extremal with everything newer strictly worse - unique), on the fast path and in the rescan. All selection methods (incl. delta, arg-extrema, SMM, median in MedianAbsDev) are "
         "compared exactly with the model and with from-scratch selections on tie-rich streams.",
-   note=COMMON_NOTE + "PARTIAL: HighestLowestDelta, HighestIndex, LowestIndex, SMM validated only. f64::max/min tie behaviour on ±0 "
+   note=COMMON_NOTE + "PARTIAL: HighestLowestDelta, SMM validated only. f64::max/min tie behaviour on ±0 "
         "is hardware-defined: outputs compared numerically as the property allows.",
    ref="DESIGN.md §5 C04"),
  "C14": dict(cat="proof", tech="Lean 4 proofs (definitional characterisation, antisymmetry) + exact differential replay",
